@@ -209,6 +209,45 @@ def subst(stub: bytes, off: int, width: int, val: int) -> bytes:
     return stub[:off] + (val & ((1 << 8 * width) - 1)).to_bytes(width, "little") + stub[off + width :]
 
 
+def run_overlap(seed: int, acc, bound: int) -> int:
+    """two async unprotect calls in flight at once; every reply of the DC arrives in two TCP segments (16-byte header | rest) and the
+    explorer interleaves the segments of the two connections: both calls must find the port and return the plaintext"""
+    import dpapi_ng
+
+    from mc import explorer, overlap
+
+    rk, blob = setup(seed)
+    cnt = [0]
+    for ntow in (1, 3):
+
+        def body(ch, ntow=ntow):
+            dc = refdc.DC([rk], now=(361, 10, 12))
+            towers = [tower(i, (3 * i + 1) % 8, "3" if i == ntow - 1 else None) for i in range(ntow)]
+            dc.isd_port = expected_port(towers) or 1
+            dc.epm_stub = epm.ept_map_response(towers, 0, b"\x00" * 20)
+            dc.segment = lambda reply: [reply[:16], reply[16:]] if len(reply) > 16 else [reply]
+            kw = dict(server="dc", username="u", password="p", auth_protocol="ntlm")
+            facs = [lambda: dpapi_ng.async_ncrypt_unprotect_secret(blob, **kw), lambda: dpapi_ng.async_ncrypt_unprotect_secret(blob, **kw)]
+            return overlap.run(ch, dc, facs, [secctx.scripted_client(lambda u, p, **k: secctx.ScriptedContext([b"C1"], 16))], per_chunk=True)
+
+        def on_exec(ch, r, ntow=ntow):
+            status, res, order = r
+            cnt[0] += 1
+            case = ["overlap", ntow, ch.choices]
+            acc.nt(("overlap", ntow, tuple(ch.choices)))
+            acc.set_add("overlap_orders", tuple(order))
+            if status != "ok":
+                acc.violate("overlap." + status, case, {"order": order}, size=len(ch.choices))
+                return
+            for i, (st, v) in enumerate(res):
+                if st != "ok" or bytes(v) != b"c18":
+                    acc.violate("overlap.call-failed", case + [i], {"outcome": st, "value": repr(v)[:160], "order": order}, size=len(ch.choices))
+            acc.outcome("overlap-ok")
+
+        explorer.explore(body, bound, on_exec)
+    return cnt[0]
+
+
 def shards(tier: str, seed: int):
     out = []
     for api in ("sync", "async"):
@@ -217,12 +256,20 @@ def shards(tier: str, seed: int):
     out += [["prefix"], ["zeros"]]
     out += [["pairs", i] for i in range(20)]
     out += [["stack-adv", api] for api in ("sync", "async")]
+    out.append(["overlap", 2 if tier == "quick" else 3])
     return out
 
 
 def run_shard(shard, tier, seed, acc) -> None:
     seams.block_network()
     what = shard[0]
+    if what == "overlap":
+        n = run_overlap(seed, acc, shard[1])
+        acc.ev(n)
+        acc.states += n
+        acc.transitions += n * 20
+        acc.sample({"two async calls in flight": "replies in two segments (header | rest), interleaved segment by segment", "deviation_bound": shard[1], "interleavings": n})
+        return
     if what == "wf":
         api, part = shard[1], shard[2]
         n = 0
@@ -329,6 +376,14 @@ def replay(case, seed, acc) -> None:
     seams.block_network()
     acc.ev()
     what = case[0]
+    if what == "overlap":
+        run_overlap(seed, acc, 3)
+        for kk in list(acc.violations):
+            acc.violations[kk] = [e for e in acc.violations[kk] if e["case"][:3] == case[:3]]
+            if not acc.violations[kk]:
+                del acc.violations[kk]
+        acc.violation_count = sum(len(v) for v in acc.violations.values())
+        return
     if what == "wf":
         _, api, residues, tcp_towers, pos, status, handle = case
         c, v = case_wellformed(seed, api, residues, tuple(tcp_towers), pos, status, HANDLE if handle else b"\x00" * 20)
